@@ -376,21 +376,23 @@ def _copy_task(task):
     part = Part()
     units, lo_b, hi_b = TYPES[qt]
     du = units[0]
+    du2 = units[2]  # the second category keeps its limits in ANOTHER default unit
     for kindB in LIMIT_KINDS:
         db = worlds.mini("bare")
         lo_du, hi_du = lo_b, hi_b
         limits = {}
+        dunit = {"lim": du, "lim2": du2}
         for cname, kind in (("lim", kindA), ("lim2", kindB)):
             _n, l, h, lx, hx = kind
-            lo = lo_du if l else None
-            hi = hi_du if h else None
-            db.AddCategory(cname, qt, default_unit=du, default_value=(lo_b + hi_b) / 2, min_value=lo, max_value=hi, is_min_exclusive=lx, is_max_exclusive=hx)
+            lo = db.Convert(qt, du, dunit[cname], lo_du) if l else None
+            hi = db.Convert(qt, du, dunit[cname], hi_du) if h else None
+            db.AddCategory(cname, qt, default_unit=dunit[cname], default_value=db.Convert(qt, du, dunit[cname], (lo_b + hi_b) / 2), min_value=lo, max_value=hi, is_min_exclusive=lx, is_max_exclusive=hx)
             limits[cname] = (lo, hi, lx, hx)
         with worlds.installed(db):
             model = Model(db)
             part.count("copy_configurations")
             for u in (units[0], units[1]):
-                P = [p for p in probes(db, model, qt, u, du, lo_du, hi_du) if p[0] in ("below", "inside", "above", "nan", "exactly at max")]
+                P = [p for p in probes(db, model, qt, u, du, lo_du, hi_du) if p[0] in ("below", "inside", "above", "nan")]
                 names = [n for n, _x in P]
                 xs = [x for _n, x in P]
                 u2 = units[1] if u == units[0] else units[0]
@@ -399,7 +401,7 @@ def _copy_task(task):
                     lo, hi, lx, hx = limits[cat]
                     if lo is None and hi is None:
                         return True, []
-                    am = [db.Convert(qt, unit, du, float(v)) for v in vals]
+                    am = [db.Convert(qt, unit, dunit[cat], float(v)) for v in vals]
                     return all(math.isnan(a) or satisfies(a, lo, hi, lx, hx) for a in am), [a for a in am if not math.isnan(a)]
 
                 for L in range(0, 3):
@@ -454,11 +456,9 @@ def _copy_task(task):
                                 if prevalidate:
                                     src.IsValid()
                                 cp = src.CreateCopy(unit=unit2, category=cat2) if cat2 == "lim2" else src.CreateCopy(unit=unit2)
-                                a = db.Convert(qt, u, du, x) if unit2 == u else db.Convert(qt, unit2, du, db.Convert(qt, u, unit2, x))
+                                a = db.Convert(qt, u, dunit[cat2], x) if unit2 == u else db.Convert(qt, unit2, dunit[cat2], db.Convert(qt, u, unit2, x))
                                 lo, hi, lx, hx = limits[cat2]
                                 truth = True if (lo is None and hi is None) else ((not math.isnan(a)) and satisfies(a, lo, hi, lx, hx))
-                                if n.startswith("exactly") and unit2 != u:
-                                    continue  # a second conversion may leave the exact boundary by rounding
                                 _validate_object(part, "C12:copy:%s:%s -> %s:%s %s in %s:%s%s" % (qt, kindA[0], kindB[0], cls.__name__, n, u, cname, " after IsValid()" if prevalidate else ""), None, cp, truth, [a], lo, hi, lx, hx)
     return part
 
